@@ -27,13 +27,18 @@ CONSTANTS Keys,        \* e.g. {1, 2}: key i is "k<i>", scanned in ascending ord
           CheckArgs,   \* CheckTxnStatus variants <<CurrentTs - start ts, CallerStartTs (0 = none), RollbackIfNotExist>>
           ReadTs,      \* read timestamps probed by the invariants
           Limits,      \* scan limits probed by the invariants
+          Boosts,      \* a prewrite (first or retried) carries LockTtl = TTLOf[t] + b, b \in Boosts, and a MinCommitTs raised by b \div 7
           Dev,         \* enabled deviations (see above)
           Ops,         \* request kinds issued (all of AllOps in exhaustive runs; subsets steer random generation)
-          GenMode,     \* behaviour generation only: "any" | "effective" | "mixed" | "late" (see GenConstraint)
+          GenMode,     \* behaviour generation only: "any" | "effective" | "mixed" | "late" | "contend" (see GenConstraint)
           MaxHist      \* history length (0 in exhaustive runs)
 
 \* ---- transaction tables (selected by the cfg files through <-) ----
 StartA   == <<10, 20, 30>>
+StartB   == <<5, 10, 20>>        \* with CommitC: transaction 3 starts last and commits first, inside the other two
+CommitC  == <<30, 40, 25>>
+StartC   == <<7, 100, 1000>>     \* off the 10/20/30 grid, all three intervals nested in start order
+CommitD  == <<2000, 1500, 1200>>
 CommitA  == <<15, 25, 35>>       \* disjoint [start, commit] intervals
 CommitB  == <<25, 35, 45>>       \* neighbours overlap
 KindsA   == <<"put", "put", "put">>
@@ -146,19 +151,21 @@ Apply(k, c) == /\ lock' = [lock EXCEPT ![k] = c.lock]
 
 Log(rec) == hist' = IF Len(hist) < MaxHist THEN Append(hist, rec) ELSE hist
 
-\* prewriteMutation
-Prewrite(t, k) ==
+\* prewriteMutation; b distinguishes retried prewrites that carry other TTL / MinCommitTs fields
+Prewrite(t, k, b) ==
     LET s == StartTs[t]
-        req == [op |-> "Prewrite", start |-> s, k |-> k, kind |-> KindOf[t], v |-> ValOf[t][k], ttl |-> TTLOf[t],
-                minc |-> MinCOf[t], pk |-> PrimaryOf[t]]
-        fresh == [lock |-> [ts |-> s, ttl |-> TTLOf[t], kind |-> KindOf[t], mc |-> MinCOf[t]],
+        ttl == TTLOf[t] + b
+        minc == MinCOf[t] + (b \div 7)
+        req == [op |-> "Prewrite", start |-> s, k |-> k, kind |-> KindOf[t], v |-> ValOf[t][k], ttl |-> ttl,
+                minc |-> minc, pk |-> PrimaryOf[t], cts |-> CommitTs[t]]
+        fresh == [lock |-> [ts |-> s, ttl |-> ttl, kind |-> KindOf[t], mc |-> minc],
                   writes |-> writes[k],
                   data |-> SetData(data[k], s, KindOf[t] # "put", IF KindOf[t] = "put" THEN ValOf[t][k] ELSE "")]
         res == IF lock[k].ts # 0 /\ lock[k].ts # s THEN [r |-> "locked", lts |-> lock[k].ts, c |-> Cols(k)]
                ELSE IF lock[k].ts = s /\ "RePrewriteRewritesLock" \notin Dev THEN [r |-> "ok", lts |-> 0, c |-> Cols(k)]
                ELSE IF MostRecentWrite(k).kind # "none" /\ MostRecentWrite(k).ts >= s THEN [r |-> "conflict", lts |-> 0, c |-> Cols(k)]
                ELSE [r |-> "ok", lts |-> 0, c |-> fresh]
-        e == [start |-> s, k |-> k, kind |-> KindOf[t], v |-> ValOf[t][k], ttl |-> TTLOf[t], minc |-> MinCOf[t], r |-> res.r, lts |-> res.lts]
+        e == [start |-> s, k |-> k, kind |-> KindOf[t], v |-> ValOf[t][k], ttl |-> ttl, minc |-> minc, r |-> res.r, lts |-> res.lts]
     IN /\ k \in TxnKeys[t]
        /\ Apply(k, res.c) /\ viol' = viol \cup PrewriteViol(g, e) /\ g' = PrewriteUpd(g, e) /\ Log(req)
 
@@ -223,7 +230,7 @@ Init == /\ lock = [k \in Keys |-> NoLock] /\ writes = [k \in Keys |-> {}] /\ dat
 
 AllOps == {"Prewrite", "Commit", "Rollback", "ResolveRollback", "ResolveCommit", "Check", "CheckRollbackIfNotExist"}
 Next == \E t \in Txns :
-          \/ \E k \in Keys : \/ "Prewrite" \in Ops /\ Prewrite(t, k)
+          \/ \E k \in Keys : \/ "Prewrite" \in Ops /\ \E b \in Boosts : Prewrite(t, k, b)
                              \/ "Commit" \in Ops /\ Commit(t, k)
                              \/ "Rollback" \in Ops /\ Rollback(t, k)
                              \/ "ResolveRollback" \in Ops /\ Resolve(t, k, 0)
@@ -260,10 +267,13 @@ GoodOrCex == Good \/ (PrintT(<<"CEX", ToJson(hist)>>) /\ FALSE)
 Changed == <<lock, writes, data, g>>' # <<lock, writes, data, g>>
 \* "late": every second request is addressed to a (transaction, key) whose outcome is already decided
 \* (re-applied commits, rollbacks after commit, commits after rollback, late prewrites, status queries).
+\* "contend": every second request is a prewrite of any transaction/key with any TTL fields, whether or not the
+\* model grants it (prewrites against other locks, after other commits, retried prewrites of a held lock).
 LateRequest == LET r == hist'[Len(hist')] IN G(g, r.start, r.k).st \in {"committed", "rolledback"}
 GenConstraint == \/ GenMode = "any" \/ Changed
                  \/ (GenMode = "mixed" /\ Len(hist) % 3 = 2)
                  \/ (GenMode = "late" /\ Len(hist) % 2 = 1 /\ Len(hist') > Len(hist) /\ LateRequest)
+                 \/ (GenMode = "contend" /\ Len(hist) % 2 = 1 /\ Len(hist') > Len(hist) /\ hist'[Len(hist')].op = "Prewrite")
 
 \* behaviour generation: the history is printed at every length from 5 on (constrained walks may end before
 \* MaxHist); the check keeps the maximal ones (a history that is a prefix of another adds nothing)
